@@ -33,7 +33,35 @@ def check(F, rep):
         ent = find_calls(ur, regex=r"Entry::or_insert$")
         rep.exact("monotone", "entry(url).or_insert(latency)", len(ent), 1)
         stores = [(b, i, s) for b, i, s in ur.stmts() if s["k"] == "a" and s["lhs"].get("p") and s["lhs"]["p"][0][0] == "deref" and ent and copy_sources(ur, s["lhs"]["l"]) == {("call", "alloc::collections::btree::map::entry::Entry::or_insert", ())}]
-        rep.exact("monotone", "stores into the existing entry", len(stores), 1)
+        am = find_calls(ur, regex=r"Entry::and_modify$")
+        if not stores and am:
+            # idiom 2: entry(url).and_modify(|old| *old = (*old).min(latency)).or_insert(latency)
+            ok = len(am) == 1 and len(ent) == 1
+            why = "and_modify/or_insert chain"
+            if ok:
+                cl = str(ur.locals[op_base(am[0][1]["args"][1])])
+                m = re.search(r"closure@[^:]+:(\d+):(\d+)", cl)
+                gs = [c for c in F.tree(ur) if c is not ur and c.kind == "Closure" and m and c.line == int(m.group(1))]
+                caps = [st["rv"] for b, i, st in ur.stmts() if st["k"] == "a" and st["lhs"]["l"] == op_base(am[0][1]["args"][1]) and st["rv"]["k"] == "agg"]
+                cap_ok = bool(caps) and all(len(rv["ops"]) == 1 and copy_sources(ur, op_base(rv["ops"][0])) == {("arg", 3, ())} for rv in caps)
+                body_ok = False
+                for g in gs:
+                    rep.fn(g)
+                    st_ = [(b, i, x) for b, i, x in g.stmts() if x["k"] == "a" and x["lhs"].get("p") and x["lhs"]["p"][0][0] == "deref" and copy_sources(g, x["lhs"]["l"]) == {("arg", 2, ())}]
+                    mins = [(b, t) for b, t in g.calls() if call_matches(t, r"^core::cmp::(Ord::min|min)$")]
+                    if len(st_) == 1 and len(mins) == 1:
+                        a0 = copy_sources(g, op_base(mins[0][1]["args"][0]))
+                        a1 = copy_sources(g, op_base(mins[0][1]["args"][1]))
+                        olds, news = {("arg", 2, ())}, {("arg", 1, ("latency",))}
+                        val = copy_sources(g, op_base(st_[0][2]["rv"]["o"])) if st_[0][2]["rv"]["k"] == "use" else set()
+                        body_ok = ((a0 == olds and a1 == news) or (a0 == news and a1 == olds)) and bool(val) and all(x[0] == "call" and re.search(r"core::cmp::(Ord::min|min)$", x[1]) for x in val)
+                ins_ok = copy_sources(ur, op_base(ent[0][1]["args"][1])) == {("arg", 3, ())}
+                chain_ok = am[0][1]["dest"]["l"] in du.closure(op_base(ent[0][1]["args"][0]))
+                ok = cap_ok and body_ok and ins_ok and chain_ok
+                why = "closure captures the new latency: %s; stores min(*old, latency) into *old: %s; or_insert(latency): %s" % (cap_ok, body_ok, ins_ok)
+            rep.ob("monotone", ok, site(ur, am[0][0]), "an existing latency is replaced by min(old, new) (and_modify idiom): %s" % why, RL + "::update_relay|min-guard")
+        else:
+            rep.exact("monotone", "stores into the existing entry", len(stores), 1)
         lts = [(b, t) for b, t in find_calls(ur, "core::cmp::PartialOrd::lt", "core::cmp::PartialOrd::gt", "core::cmp::PartialOrd::le", "core::cmp::PartialOrd::ge")]
         for b, i, s in stores:
             ok = False
